@@ -234,7 +234,12 @@ def tile_query(prog: Program) -> List[Instance]:
         recv = rb[0].args[0].value
         reproj = [n for n in walk_own(f.node) if isinstance(n, ast.Assign) and isinstance(n.value, ast.Call) and call_name(n.value) == "to_crs" and isinstance(recv, ast.Name) and short(n.targets[0]) == recv.id]
         ok = bool(reproj) and all(r.lineno < rb[0].lineno for r in reproj)
-    out.append(Instance("R-GUARDSEQ", f"{f.qual}#candidates-from-bbox", OK if ok else BAD, "candidates come from the bounding box of the query after it was re-projected into the grid's CRS" if ok else "candidate tile range is not derived from the bounding box of the re-projected query (a box projected by its corners misses the bulge of curved edges)", f.where()))
+        if not ok:
+            # equally sound: hand the box over in the query's own CRS, range_from_bbox projects a crs-tagged box
+            # itself (through GeoBox.project, whose densification R-DENSIFY checks)
+            rfb0 = prog.maybe_func("geobox:GeoboxTiles.range_from_bbox")
+            ok = rfb0 is not None and any(isinstance(x, ast.If) and any(isinstance(a, ast.Attribute) and a.attr == "crs" for a in ast.walk(x.test)) and any(isinstance(c, ast.Call) and call_name(c) == "project" for y in x.body for c in ast.walk(y)) for x in walk_own(rfb0.node))
+    out.append(Instance("R-GUARDSEQ", f"{f.qual}#candidates-from-bbox", OK if ok else BAD, "candidates come from the bounding box of the query, brought into the grid's CRS with densification (here or inside range_from_bbox)" if ok else "candidate tile range is not derived from the bounding box of the re-projected query (a box projected by its corners misses the bulge of curved edges)", f.where()))
     # pixel -> tile lookup is delegated to the tiling (regular or variable), never re-derived
     rfb = prog.func("geobox:GeoboxTiles.range_from_bbox")
     nloc = sum(1 for n in walk_own(rfb.node) if isinstance(n, ast.Call) and call_name(n) == "locate")
